@@ -3,6 +3,7 @@
 // R rounds, behind one barrier and otherwise unsynchronised; every per-call
 // digest must equal the single-threaded baseline, and TSan must stay silent.
 #include "gcase.hpp"
+#include "forked.hpp"
 #include "registry.hpp"
 
 #include "BaseGraph/algorithms/paths.hpp"
@@ -190,6 +191,29 @@ void runInner(const Case &c, verif_result *out) {
     StepFacts facts;
     try {
         buildGraph(s, "int", g, m);
+        // a long update history on the shared object before the readers start (a lazily rebuilt summary would be rebuilt by the
+        // first reader, i.e. concurrently): `churn` times the value of one edge is changed and restored
+        long long churn = std::min<long long>(70000, c.geti("churn", 0));
+        if (churn > 0 && !m.e.empty()) {
+            unsigned ci = m.e.begin()->first.first, cj = m.e.begin()->first.second;
+            const MVal cv = m.e.begin()->second;
+            for (long long t = 0; t < churn; ++t) {
+                if constexpr (T::fam == 'W') {
+                    g.setEdgeWeight(ci, cj, cv.w + 1);
+                    g.setEdgeWeight(ci, cj, cv.w);
+                } else if constexpr (T::fam == 'M') {
+                    g.setEdgeMultiplicity(ci, cj, (unsigned)cv.k + 1);
+                    g.setEdgeMultiplicity(ci, cj, (unsigned)cv.k);
+                } else if constexpr (T::nolabel) {
+                    g.removeEdge(ci, cj);
+                    g.addEdge(ci, cj);
+                } else {
+                    g.setEdgeLabel(ci, cj, LabelCodec<typename T::Label>::mk((int)((cv.k + 1) % LABEL_K)));
+                    g.setEdgeLabel(ci, cj, LabelCodec<typename T::Label>::mk((int)cv.k));
+                }
+            }
+            facts.tag(churn >= 16384 ? "long_update_history" : "update_history");
+        }
         // no observer is called before the threads start: a cache filled by a first single-threaded call would hide its race
         {
             Entries<G> en(g);
@@ -269,47 +293,10 @@ void runInner(const Case &c, verif_result *out) {
 template <class G>
 void run(const Case &c, verif_result *out) {
     std::string cls = c.get("class") + ":" + c.get("label", "none");
-    int fds[2];
-    if (::pipe(fds) != 0) {
-        runInner<G>(c, out);
-        return;
-    }
-    std::fflush(nullptr);
-    pid_t pid = ::fork();
-    if (pid == 0) {
-        ::close(fds[0]);
-        static verif_result local;
-        std::memset(&local, 0, sizeof local);
-        runInner<G>(c, &local);
-        size_t off = 0;
-        const char *p = reinterpret_cast<const char *>(&local);
-        while (off < sizeof local) {
-            ssize_t w = ::write(fds[1], p + off, sizeof local - off);
-            if (w <= 0)
-                break;
-            off += (size_t)w;
-        }
-        ::close(fds[1]);
-        ::_exit(0);
-    }
-    ::close(fds[1]);
-    static verif_result got;
-    size_t off = 0;
-    char *p = reinterpret_cast<char *>(&got);
-    while (off < sizeof got) {
-        ssize_t r = ::read(fds[0], p + off, sizeof got - off);
-        if (r <= 0)
-            break;
-        off += (size_t)r;
-    }
-    ::close(fds[0]);
+    std::string how;
     int status = 0;
-    ::waitpid(pid, &status, 0);
-    if (off == sizeof got && WIFEXITED(status) && WEXITSTATUS(status) == 0) {
-        *out = got;
+    if (runForked([&](verif_result *o) { runInner<G>(c, o); }, out, how, &status))
         return;
-    }
-    std::string how = WIFSIGNALED(status) ? "killed by signal " + std::to_string(WTERMSIG(status)) : "exit status " + std::to_string(WEXITSTATUS(status));
     bool tsan = WIFEXITED(status) && WEXITSTATUS(status) == 95;
     fillResult(out, 1, false, 0, cls + "|concurrent|" + (tsan ? "thread-sanitizer-report" : "child-died"), "",
                "property C18 class " + cls + ": the process running the concurrent readers ended abnormally (" + how + ")" +
